@@ -108,6 +108,7 @@ var docFaults = []faultSpec{
 	{"ValuesOfCorrectType", "int-from-enum", siteVal},
 	{"ValuesOfCorrectType", "int-out-of-32-bit", siteVal},
 	{"ValuesOfCorrectType", "int-beyond-int64", siteVal},
+	{"ValuesOfCorrectType", "int-literal-beyond-double-for-Float", siteVal},
 	{"ValuesOfCorrectType", "int-from-object", siteVal},
 	{"ValuesOfCorrectType", "int-from-list", siteVal},
 	{"ValuesOfCorrectType", "float-from-string", siteVal},
@@ -1317,6 +1318,11 @@ func (g *docGen) valueFault(lt *TypeRef, def *TypeDef, fl uint8) bool {
 		return emit(is("Int"), rng.Pick(g.r, []string{"2147483648", "-2147483649", "1099511627776"}))
 	case "int-beyond-int64":
 		return emit(is("Int"), "9223372036854775808")
+	case "int-literal-beyond-double-for-Float":
+		// an IntValue that no finite double represents, where a Float is expected (argument, input
+		// field, list item, variable default): 1 followed by 309 / 399 zeros, and the first integer
+		// that rounds to +Inf (2^1024 - 2^970), with either sign
+		return emit(is("Float"), rng.Pick(g.r, BeyondDoubleInts))
 	case "int-from-object":
 		return emit(is("Int"), "{}")
 	case "int-from-list":
